@@ -44,6 +44,7 @@ func main() {
 	typedStates += maph.ExploreTyped(r, run, spell.Complex).States
 	typedStates += maph.ExploreTyped(r, run, spell.Pointers).States
 	typedStates += maph.ExploreTyped(r, run, spell.Int8).States
+	typedStates += maph.ExploreTyped(r, run, spell.Liars).States
 	typedStates += maph.ExploreTyped(r, run, spell.Stringers).States
 	typedStates += maph.ExploreTyped(r, run, spell.Errors).States
 	typedStates += maph.ExploreTyped(r, run, spell.Chans).States
